@@ -76,7 +76,8 @@ def run(ctx):
     for e in (evs[:1] + [x for x in evs if x["kind"] == "stall"][:1] + [x for x in evs if x["kind"] == "trickle"][:1] + evs[-1:]):
         res.sample({k: e[k] for k in ("hops", "hop", "kind", "at", "stage", "outcome", "whole", "ticks", "ms", "err")})
     res.exhaustive = not q
-    res.extra["outcomes"] = {k: sum(1 for e in evs if e["outcome"] == k) for k in ("ok", "err", "timeout", "panic")}
+    res.extra["outcomes"] = {k: sum(1 for e in evs if e["outcome"] == k) for k in ("ok", "err", "timeout", "panic", "nodoc")}
+    res.extra["refetched_after_recovery"] = {k: sum(1 for e in evs if e.get("again") == k) for k in ("doc", "err", "nodoc", "panic")}
     res.assumptions = ["timeout configured to 1 s (in-package: dialer.Timeout); bound: 3 timeouts per hop, measured in whole timeouts",
                        "a response counts as whole once its JSON object (or, for a redirect, its Location line) has been delivered"]
     # pub level: a page of a collection that fails to load must become an error item, not a crash
